@@ -26,6 +26,21 @@ def run(R):
     ok, badthm = R.prove()
     quick = R.tier == "quick"
     ops, plain = [], []
+    # a fixed coverage batch first: every method's canonical setting through crypt_r and crypt_rn (all four bcrypt subtypes, the DES family,
+    # the yescrypt family), crypt_gensalt_rn/_ra for every prefix and NULL, crypt_checksalt, crypt_preferred_method - executed by 4 threads at
+    # once, so that every re-entrant code path runs concurrently in at least two threads whatever the seed (ThreadSanitizer then reports any
+    # write to shared storage, independent of timing)
+    cover = []
+    for m in S.METHODS:
+        for e in ("r", "rn"):
+            cover.append(CS.crypt_op(e, 0, b"thread-safety", S.CANON[m]))
+    for pfx in list(PREFIXES.values()) + [None]:
+        for e in ("rn", "ra"):
+            cover.append("G %s %s 0 %s 32 192" % (e, hx(pfx), hx(bytes(range(32)))))
+    cover += ["K " + hx(S.CANON[m]) for m in S.METHODS] + ["P", "K 2a30"]
+    for nt in (4, 8, 2, 16):      # repeated: ThreadSanitizer's shadow state is finite, one pass can miss a race the next one reports
+        ops += ["MT %d %d" % (nt, len(cover))] + cover
+    plain += cover
     for i in range(12 if quick else 200):
         k = R.rng.randrange(5, 40); n = R.rng.choice([2, 3, 4, 8, 16])
         b = batch(R, k)
@@ -58,7 +73,7 @@ def run(R):
     R.cov["evaluations"] = len(plain)
     R.cov["distinct_nontrivial"] = len(set(plain))
     R.cov["thread_runs"] = threads
-    R.cov["rule"] = ("batches of 5..40 mixed calls (crypt_r, crypt_rn, crypt_gensalt_rn, crypt_gensalt_ra, crypt_checksalt, crypt_preferred_method over all methods) executed by "
+    R.cov["rule"] = ("a fixed coverage batch (all 16 methods x crypt_r/crypt_rn, gensalt_rn/_ra for every prefix, checksalt, preferred method) by 4 threads, then batches of 5..40 mixed calls (crypt_r, crypt_rn, crypt_gensalt_rn, crypt_gensalt_ra, crypt_checksalt, crypt_preferred_method over all methods) executed by "
                      "2..16 threads concurrently in a ThreadSanitizer build, each thread on its own objects; every thread's transcript is compared with the sequential "
                      "one; the footprint theorem is re-decided over the call graph regenerated from the clang AST")
     R.cov["samples"] = [{"op": plain[i][:160], "impl": il[i][:160]} for i in R.rng.sample(range(len(plain)), 3)] + [{"mt": mt[:3]}]
